@@ -15,11 +15,9 @@ package main
 //                   0 <= i < Len()).
 
 import (
-	"fmt"
 	"go/constant"
 	"go/token"
 	"go/types"
-	"os"
 	"regexp"
 	"sort"
 	"strconv"
@@ -185,9 +183,6 @@ func (a *c02Auto) discharge(s *panicSite) string {
 		return ""
 	}
 	fn := in.Parent()
-	if os.Getenv("ZLV_C02_DEBUG") != "" && strings.Contains(s.expr, os.Getenv("ZLV_C02_DEBUG")) {
-		fmt.Printf("debug: %s x=%T %s idx=%T %s guarded=%v inv=%q\n", s.expr, x, apath(x), idx, idx, guardedByPath(in.Block(), apath(x)), a.nameInvariant())
-	}
 	// name-nonempty
 	if k, ok := idx.(*ssa.Const); ok && k.Value != nil && k.Value.Kind() == constant.Int && k.Int64() == 0 {
 		if ld, ok := x.(*ssa.UnOp); ok && ld.Op == token.MUL {
